@@ -538,7 +538,9 @@ def ga_builtin(it, obj, name, args, kw):
         req = list(it.attribute(obj, "_required_columns"))
         order = [c for c in req if c in obj.data.cols] + sorted(c for c in obj.data.cols if c not in req and not c.startswith("__"))
         hidden = {c: v for c, v in obj.data.cols.items() if c.startswith("__")}
-        obj.data = DF(dict({c: obj.data.cols[c] for c in order}, **hidden), obj.data.n, obj.data.index)
+        old = obj.data
+        obj.data = DF(dict({c: old.cols[c] for c in order}, **hidden), old.n, old.index)
+        obj.data.exact, obj.data.labels = getattr(old, "exact", False), getattr(old, "labels", None)
         return None
     if name == "sort":
         d = obj.data
@@ -2372,7 +2374,9 @@ def ext_call(it, dotted, args, kw):
             a0 = {k: as_vec(v) for k, v in a0.items()}
         if isinstance(a0, dict) and all(isinstance(v, Vec) for v in a0.values()):
             n = len(next(iter(a0.values())).v) if a0 else 0
-            return DF(a0, n)
+            out = DF(a0, n)
+            out.exact = bool(a0) and all(getattr(v, "exact", False) and len(v.v) == n for v in a0.values())
+            return out
         if isinstance(a0, DF):
             return a0
         if isinstance(a0, dict) and a0 and any(isinstance(v, Vec) for v in a0.values()) and \
